@@ -66,6 +66,11 @@ func genRace(r *Rng, prop string) *Scenario {
 		// BaseClient: concurrent callers + inbound traffic acknowledged by the reader
 		cfg.Client = "base"
 		cfg.InitIDs = []uint32{uint32(r.pickI(0xFFF0, 0xFFFA, 0, 0x7FFF, 0x1FFF8))}
+		if prop == "C10" && r.chance(0.15) {
+			// a peer that answers before it was asked: its CONNACK is readable when
+			// the reader goroutine starts, while Connect is still preparing
+			cfg.EarlyConnAck = true
+		}
 		hk := 1
 		if r.chance(0.4) {
 			hk = 7 // a handler that keeps reading its message on its own goroutine
